@@ -297,6 +297,7 @@ GEN_UNITS = {  # property -> units of Gen/Source.v its source-level theorems are
     "C17": ["get_dim_range", "crop_dim"],
     "C20": ["get_coord_index"],
     "C07": ["match_geometries_tail"],
+    "C10": ["convert_geometry_to_bbox", "convert_time_to_sample"],
     "C08": ["iterate_over_valid_clips"],
     "C09": ["iterate_over_valid_clips"],
 }
